@@ -12,6 +12,8 @@ import (
 func init() {
 	env.Register("C09_Vote", C09_Vote)
 	env.Register("C09_Leader", C09_Leader)
+	env.Register("C09_LeaderViews", C09_LeaderViews)
+	env.Register("C07_HighestProof", C07_HighestProof)
 }
 
 func c09Weights() []uint64 {
@@ -222,6 +224,14 @@ func C09_Leader() {
 			stored, _ = n.st.GetViewChangeMessages(1, 2)
 		}
 	}
+	c09CheckNewView(wd, from, nreq, stored, 2)
+}
+
+// c09CheckNewView: the oracle of the leader clause, applied to whatever NEW_VIEW node wd.n sent since `from`:
+// the embedded votes are exactly the votes stored when it was emitted, they reach the quorum, the proposal is the
+// block of the highest-view proof among them, a fresh block is requested iff none carries a proof.
+func c09CheckNewView(wd *vWorld, from, nreq int, stored []*interfaces.ViewChangeMessage, view primitives.View) {
+	n := wd.n
 	// the NEW_VIEW, if any
 	var nv *interfaces.NewViewMessage
 	for _, s := range n.comm.Out[from:] {
@@ -236,7 +246,7 @@ func C09_Leader() {
 	}
 	env.Reach("C09.new_view_sent")
 	hdr := nv.Content().SignedHeader()
-	env.Assert("C09.nv.header", env.And(hdr.View() == 2, hdr.BlockHeight() == 1))
+	env.Assert("C09.nv.header", env.And(hdr.View() == view, hdr.BlockHeight() == 1))
 	// embedded votes: exactly the stored ones (own vote + accepted votes received before the quorum completed)
 	it := hdr.ViewChangeConfirmationsIterator()
 	cnt := 0
@@ -290,4 +300,80 @@ func hasNewView(n *vNode, from int) bool {
 		}
 	}
 	return false
+}
+
+// blockOfView: in these harnesses the block prepared in view p is determined by p (distinct odd tags)
+func blockOfView(p int) *stub.Block {
+	return &stub.Block{H: 1, Tag: byte(0x21 + 2*p), ProposalOK: true}
+}
+
+// C09_LeaderViews: node 2 times out six times and leads view 6. The three other members send genuine votes,
+// each carrying a genuine prepared proof for a symbolically chosen earlier view 0..5 (or no proof), in a
+// symbolically chosen order: any combination and order of proof views.
+func C09_LeaderViews() {
+	const me = 2
+	wd := newWorld(me, c09Weights())
+	n, net := wd.n, wd.net
+	for t := 0; t < 6; t++ {
+		n.timeout()
+	}
+	env.Assert("C09.setup_view6", n.m.state.View() == 6)
+	voters := []int{0, 1, 3}
+	switch env.Choice("order", 3) {
+	case 1:
+		voters = []int{3, 0, 1}
+	case 2:
+		voters = []int{1, 3, 0}
+	}
+	var stored []*interfaces.ViewChangeMessage
+	nvSeen := false
+	from := len(n.comm.Out)
+	nreq := len(n.bu.Requests)
+	for _, i := range voters {
+		pv := env.Choice("proof_view", 7) // 6: no proof
+		var vcm *interfaces.ViewChangeMessage
+		if pv == 6 {
+			vcm = net.vcm(i, 1, 6, nil)
+		} else {
+			vcm = net.vcm(i, 1, 6, net.prepared(1, primitives.View(pv), blockOfView(pv), othersOf(pv%4)))
+		}
+		n.deliver(vcm.ToConsensusRawMessage())
+		if !nvSeen && hasNewView(n, from) {
+			nvSeen = true
+			stored, _ = n.st.GetViewChangeMessages(1, 6)
+		}
+	}
+	c09CheckNewView(wd, from, nreq, stored, 6)
+}
+
+// C07_HighestProof (follower side of the same clause): a node that timed out to view 1 receives a NEW_VIEW for
+// view 7, genuinely signed by its leader (member 3), with genuine votes of the three other members, each carrying
+// a genuine prepared proof for a symbolically chosen view 0..6 (block determined by the view), proposing the block
+// of a symbolically chosen vote. It must be adopted iff the proposal is the block of the highest proof view.
+func C07_HighestProof() {
+	me := env.Param("me") // 0..2
+	wd := newWorld(me, paramWeights())
+	n, net := wd.n, wd.net
+	wd.prefix(3)
+	var votes []*interfaces.ViewChangeMessage
+	var views []int
+	max := -1
+	for _, i := range othersOf(me) {
+		pv := env.Choice("proof_view", 7)
+		views = append(views, pv)
+		if pv > max {
+			max = pv
+		}
+		votes = append(votes, net.vcm(i, 1, 7, net.prepared(1, primitives.View(pv), blockOfView(pv), othersOf(pv%4))))
+	}
+	c := env.Choice("proposed", len(votes))
+	s0 := n.snap()
+	n.deliver(net.nvm(3, 1, 7, votes, blockOfView(views[c])).ToConsensusRawMessage())
+	adopted := n.m.state.View() == 7
+	if views[c] == max {
+		env.Reach("C07.hp.highest_proposed")
+		env.Assert("C11.NV.adopted", adopted)
+	} else {
+		env.Assert("C07.lock.proposal_is_highest_proven", !n.influenced(s0))
+	}
 }
